@@ -30,6 +30,7 @@ fn main() {
         "search" => search::run(&args),
         "search-public" => search::public(&args),
         "mate-cert" => search::mate_cert(&args),
+        "mate-mine" => search::mate_mine(&args),
         "parse" => textreplay::parse(&args),
         "san" => textreplay::san(&args),
         "fen" => textreplay::fen(&args),
